@@ -716,3 +716,52 @@ func TestC15TransientFault(t *testing.T) {
 	})
 	col.RequireClasses(t, "read-failed", "fault-inside-a-frame")
 }
+
+// TestC15TransportReadLimit: the read limit where the engine configures it. A session on the engine's WebTransport
+// transport (opened directly or reached through an upgrade of a polling session) with maxHttpBufferSize L: a message
+// longer than L is never delivered, the connection is ended and the session closes. (Runs C10's WebTransport path:
+// there the clause belongs to the payload limit as a whole, here to the reader's limit clause.)
+func TestC15TransportReadLimit(t *testing.T) {
+	col := NewCollector("TestC15TransportReadLimit",
+		"rapid: limit L (boundary table and random, >= 64 so that the handshake fits) on a server; a WebTransport session opened directly or upgraded from polling; one message of L-1, L, L+1, 2L or >>L bytes in minimal / 16-bit / 64-bit length form (or a bare header announcing 2^40 bytes), the frame arriving in one or two pieces; oracle: no message longer than L delivered, at most L+8192 bytes consumed, an oversized frame ends that connection and closes the session once, a frame within the limit does not. non-trivial: size within 1 of the limit, or an upgraded session").Use(t)
+	rapid.Check(t, func(rt *rapid.T) {
+		c := genC10(rt, false, col)
+		c.Path, c.Rev, c.Decl, c.Multi, c.B64, c.Other = "wt", 4, "exact", 1, false, 0
+		if c.L < 64 {
+			c.L = 64 + c.L
+		}
+		c.Upgraded = rapid.Bool().Draw(rt, "viaUpgrade")
+		c.Layout = rapid.SampledFrom([]string{"min", "min", "form16", "form64", "header-only-64bit"}).Draw(rt, "wtLayout")
+		c.Cut = rapid.SampledFrom([]int{0, 0, 1, 2, 5, 9}).Draw(rt, "wtCut")
+		switch c.SizeCls {
+		case "L-1":
+			c.Size = c.L - 1
+		case "L":
+			c.Size = c.L
+		case "L+1":
+			c.Size = c.L + 1
+		case "2L":
+			c.Size = 2 * c.L
+		default:
+			c.Size = c.L + 100000
+		}
+		journal("C15 transport limit %v", c)
+		var fail string
+		var stats map[string]bool
+		res := bubble(t, func() { fail, stats = runC10(c) })
+		var cl []string
+		for k := range stats {
+			cl = append(cl, k)
+		}
+		cl = append(cl, fmt.Sprintf("upgraded=%v", c.Upgraded))
+		col.Case(c.String(), stats["within-1-of-limit"] || c.Upgraded, map[string]any{"case": c.String()}, cl...)
+		res.rethrow()
+		if fail != "" {
+			rt.Fatalf("%v\n%s", c, fail)
+		}
+		if res.Leak != "" {
+			rt.Fatalf("%v: %s", c, clipStr(res.Leak, 1500))
+		}
+	})
+	col.RequireClasses(t, "connection-terminated", "delivered", "after-upgrade", "upgraded=false")
+}
